@@ -149,6 +149,9 @@ def features():
         {'name': 'BannerHolder', 'body': [F('id', 'char'), CH(F('b', 'Banner'), BR, F('s', 'string'), BR, F('b2', 'Banner'), F('t', 'string'))]},
         # an optional array counted by an optional length field
         {'name': 'LenOptArr', 'body': [F('id', 'char'), L('zs_len', 'char', optional='true'), A('zs', 'short', length='zs_len', optional='true')]},
+        # raw bytes and a plain string AFTER a chunked section (0xFF is data there again), and a second section that has a break of its own
+        {'name': 'AfterChunk', 'body': [CH(F('s', 'string'), BR, F('n', 'char')), F('b1', 'byte'), F('b2', 'byte'), F('b3', 'byte'), A('bs', 'byte', length='4'), F('t', 'string', length='2')]},
+        {'name': 'TwoBreaks', 'body': [CH(F('a', 'string'), BR, F('n', 'char')), F('mid', 'short'), CH(F('b', 'string'), BR, F('c', 'string'))]},
         {'name': 'ChunkOfStructs', 'body': [F('id', 'char'), CH(F('n', 'Named'), F('p', 'PadEnc'), A('ps', 'Named', length='2')), F('after', 'string', length='2')]},
         # struct-typed fields whose class has no named field at all
         {'name': 'Magic', 'body': [F(None, 'string', 'EO', length='2'), F(None, 'char', '9')]},
